@@ -20,10 +20,13 @@
 
    [Panic site]: the Go printer would dereference a nil pointer there.
 
-   Preconditions (established by the parser model, not re-checked here): identifier parts consist of
-   bytes 1..127 and later parts do not start with ^ (sanitizeUTF8 / JSON-path formatting are not
-   modelled); function names are not among those handleSpecialFunction / NormalizeFunctionName treat
-   specially. *)
+   What the printer model does not cover yields OutOfFragment (never a guess): [print_query] first
+   tests SelectParseModel.printable_query -- identifier parts with bytes outside 1..127 or JSON-path
+   parts (sanitizeUTF8 / ^ formatting), function names that handleSpecialFunction /
+   NormalizeFunctionName treat specially, negated integers above 2^63 (float formatting), union-mode
+   grouping, "(children 0)" below a Subquery, a Subquery with a nil query -- and only then runs the
+   transcription ([explain_expr] ... are meaningful under that test only).
+   SelectCoreProof.print_query_ok proves that the test is sufficient for an [Ok] result. *)
 From Coq Require Import List NArith Bool String Ascii.
 From DC Require Import Base.Item Gen.TokenTable Tree.LineTree Select.SelectExplainModel.
 From DC Require Import Select.SelectParseModel.
@@ -340,8 +343,12 @@ with order_rose (o : order_elem) : res rose :=
   end.
 
 (* Explain(stmt) for a statement of the fragment *)
-Definition print_query (q : query) : res (list line) :=
+Definition print_query_unchecked (q : query) : res (list line) :=
   bind (query_uq q) (fun u => Ok (explain_select_with_union_query 0 u)).
+
+Definition print_query (q : query) : res (list line) :=
+  if printable_query false q then print_query_unchecked q
+  else OutOfFragment OofPrinterFragment.
 
 (* what the correspondence compares: the concatenation over all statements *)
 Fixpoint print_script (qs : list query) : res (list line) :=
